@@ -80,6 +80,12 @@ def unmarshalJSON (dst : List UInt8) (data : List UInt8) : Bool × List UInt8 :=
     | some p => (true, p)
     | none => (false, dst)
 
+/-- `json.Unmarshal` of a document that names the same UUID field more than once: encoding/json calls
+    `UnmarshalJSON` on the same destination once per occurrence, in order, and stops at the first error -/
+def jsonCalls (dst : List UInt8) : List (List UInt8) → Bool × List UInt8
+  | [] => (true, dst)
+  | l :: ls => let r := unmarshalJSON dst l; if r.1 then jsonCalls r.2 ls else r
+
 /-! ### CQL unmarshal of a uuid / timeuuid column -/
 
 /-- the destinations `unmarshalUUID` knows, with their content -/
